@@ -726,6 +726,12 @@ impl Model {
                 self.push_e(se, Exp::OptionalPrefix { c, prefix: String::new() });
                 se.labels.push(format!("{}/opaque", verb));
             }
+            other if !other.is_ascii() => {
+                // commands are matched case-insensitively in ASCII only: a verb with a non-ASCII letter is unknown
+                se.cur = P13;
+                self.push_e(se, Exp::OnePrefix { c, prefix: "421 ".into() });
+                se.labels.push("unknown_verb/non_ascii".into());
+            }
             other => {
                 se.ambiguous = Some(format!("verb {} is not modelled", other));
             }
@@ -938,7 +944,18 @@ impl Model {
         // 002-005 are customary, not required by any property (their number and content are the server's choice)
         self.push_e(se, Exp::Optional { c, options: vec!["002".into(), "003".into(), "004".into(), "005".into()] });
         se.cur = P19 | P03;
-        self.lusers(c, se);
+        if self.defer_teardown {
+            // burst mode: the welcome's statistics are produced by a separate read of the state after the user was
+            // added ("as if the client had sent LUSERS"), so other commands may take effect in between: the figures
+            // are not pinned to the instant of registration there (explicit LUSERS commands and the probes after the
+            // burst are exact)
+            for pfx in ["251 ", "252 ", "254 ", "255 ", "265 ", "266 "] {
+                self.push_e(se, Exp::OnePrefix { c, prefix: pfx.into() });
+            }
+            self.push_e(se, Exp::Optional { c, options: vec!["253".into()] });
+        } else {
+            self.lusers(c, se);
+        }
         se.cur = P20 | P03;
         self.motd(c, se);
         se.cur = P11 | P20 | P03;
